@@ -45,6 +45,21 @@ def one_op(rng, victim=None, at=None, op=None):
     return d
 
 
+def label_variant_cases(base, reps):
+    """directed: labels that differ from a genuine one only by characters an encoder might drop or fold"""
+    out = []
+    k = 0
+    for rep in range(reps):
+        for victim in "AB":
+            for at in range(0, 8):
+                for sfx in ("\u00e9", "\u0661", "\u200b", " "):
+                    out.append({"seed": base + k, "ops": [{"victim": victim, "at": at, "op": "relabel", "keep": True, "phase": "0", "suffix": sfx}]})
+                    out.append({"seed": base + k + 1, "ops": [{"victim": victim, "at": at, "op": "reflect", "keep": True, "as": "own+suffix", "suffix": sfx,
+                                                                "which": ["last", "first"][at % 2]}]})
+                    k += 2
+    return out
+
+
 def cases(tier, seed, prep=None):
     import random
     out = []
@@ -55,7 +70,9 @@ def cases(tier, seed, prep=None):
         for op in Tamper.OPS:
             for at in range(0, 10, 2):
                 out.append({"seed": seed * 1000003 + 210000 + at, "ops": [one_op(rng, "AB"[at % 4 // 2], at, op)]})
+        out += label_variant_cases(seed * 1000003 + 240000, 1)
     else:
+        out += label_variant_cases(seed * 1000003 + 240000, 12)
         k = 0
         for op in Tamper.OPS:
             for victim in "AB":
